@@ -1,9 +1,11 @@
 """C03 — the compiled reader is observationally equivalent to the interpreted reader.
 
-Proof:          coq/Props/C03.v (the reference semantics both readers are compared against is Model.Reader, on which the
-                reader theorems of C07/C08/C09 are proved; see DESIGN.md for what is and is not proved about the generator)
-Correspondence: the COMPILED reader's results (values, recorded sizes, consumed bytes) and the class layout vs Model.Reader /
-                Model.Layout for exhaustive short field sequences over a 16-kind alphabet and random definitions
+Proof:          coq/Props/C03.v (the generator is modelled as a plan in Model/Compiler.v; compiled_reader_is_interpreted_reader: the plan
+                of a packed structure of scalars and sub-readers is the interpreted loop; the block lemma; format optimisation)
+Correspondence: the instruction list parsed out of the REAL generated source (vf/plansrc.py) vs the model's plan; the real compiled
+                reader vs the model's read_compiled; the COMPILED reader's results (values, recorded sizes, consumed bytes) and the
+                class layout vs Model.Reader / Model.Layout for exhaustive short field sequences over a 24-kind alphabet, set-offset
+                histories, mixed modes, endian switches and random definitions
 Oracle:         compiled vs interpreted on the implementation itself: equal values, equal _sizes for byte-occupying fields, equal
                 stream position, equal layout; on short inputs neither returns a value the other contradicts; a structure the
                 generator rejects still parses (fallback)
@@ -140,7 +142,7 @@ def check(run: Run) -> None:
             n_oracle += len(datas)
             probs = compare_readers(text, endian, align, pointer, datas)
             c = Case(text, endian=endian, align=align, pointer=pointer, compiled=True)
-            c.ops = [("layout",)] + [("parse", d, 0) for d in datas[:4]]
+            c.ops = [("layout",), ("plan",)] + [("parse", d, 0) for d in datas[:4]] + [("parse_plan", d, 0) for d in datas[:2] + datas[-2:]]
             try:
                 its = build_items(c)
             except RuntimeError as e:
@@ -187,7 +189,7 @@ def check(run: Run) -> None:
         n_switch += 1
         probs = compare_readers(text, e1, align, None, datas, then=steps)
         c = Case(text, endian=e1, align=align, compiled=True, history=[list(x) for x in steps])
-        c.ops = [("parse", d, 0) for d in datas]
+        c.ops = [("plan",)] + [("parse", d, 0) for d in datas] + [("parse_plan", d, 0) for d in datas]
         try:
             its = build_items(c)
         except RuntimeError:
@@ -213,7 +215,7 @@ def check(run: Run) -> None:
                 n_mixed += 1
                 probs = compare_readers(PRELUDE, endian, pa, None, datas, then=[(main, not pa)])
                 c = Case(PRELUDE, endian=endian, align=pa, compiled=True, history=[("load_align", main, not pa)])
-                c.ops = [("layout",)] + [("parse", d, 0) for d in datas[:3]]
+                c.ops = [("layout",), ("plan",)] + [("parse", d, 0) for d in datas[:3]] + [("parse_plan", d, 0) for d in datas[:3]]
                 try:
                     its = build_items(c)
                 except RuntimeError as e:
@@ -248,7 +250,7 @@ def check(run: Run) -> None:
         n_setoff += 1
         probs = compare_readers(text, endian, align, None, datas, then=adds)
         c = Case(text, endian=endian, align=align, compiled=True, history=[["add_field", "main", a[1], a[2], a[3], a[4]] for a in adds])
-        c.ops = [("layout",)] + [("parse", d, 0) for d in datas[:3]]
+        c.ops = [("layout",), ("plan",)] + [("parse", d, 0) for d in datas[:3]] + [("parse_plan", d, 0) for d in datas]
         try:
             its = build_items(c)
         except RuntimeError as e:
@@ -262,8 +264,9 @@ def check(run: Run) -> None:
                 explained.add(id(it))
             run.report("C03/" + probs[0]["what"].split(" ")[0] + "/set-offsets", {**c.describe(), "ops": [{"op": "compiled vs interpreted", "problems": probs[:3]}]})
 
-    mism = run_items(run, items)
-    report_unexplained(run, mism, explained, "corr_compiled (compiled reader vs Model.Reader / Model.Layout)")
+    IMPORTS = "Model.Writer Model.Compiler"
+    mism = run_items(run, items, imports=IMPORTS)
+    report_unexplained(run, mism, explained, "corr_compiled (compiled reader vs Model.Reader / Model.Layout; generated source vs Model.Compiler)", imports=IMPORTS)
     F.obligation_fallback(run, ok, bool(failures or mism))
     F.finish_cov(run, items, mism,
                  "exhaustive: every sequence of 1 and 2 field kinds (and %s of 3) over a 24-kind alphabet {packed ints, int24, char, wchar, float, enums over packed and "
@@ -272,7 +275,9 @@ def check(run: Run) -> None:
                  % ("all" if thorough else "500 sampled"),
                  {"oracle_only_checks": n_oracle, "definitions": len(texts), "exhaustive_sequences": n_exh, "classes_compiled": n_compiled, "classes_fallen_back": n_fallback,
                   "oracle_failures": failures, "mixed_alignment_mode_cases": n_mixed, "endian_switch_cases": n_switch, "set_offset_cases": n_setoff}, exhaustive=True)
-    run.assumptions += ["NaN floats are not compared", "unions are never compiled (Compiler.compile returns them unchanged): they take part as members only"]
+    run.assumptions += ["NaN floats are not compared", "unions are never compiled (Compiler.compile returns them unchanged): they take part as members only",
+                        "vf/plansrc.py parses the generated source text into instructions (fail-closed: an unknown statement is a broken correspondence); "
+                        "the object-construction expressions around the getters are not parsed, their effect is held to the model by the read_compiled comparison"]
 
 
 def replay(rep: dict) -> int:
